@@ -2,5 +2,6 @@
 import AioslskVerif.Props.C01
 import AioslskVerif.Props.C09
 import AioslskVerif.Props.C12
+import AioslskVerif.Props.C13
 import AioslskVerif.Props.C17
 import AioslskVerif.Props.C20
